@@ -169,3 +169,127 @@ def client_call(sql: bool, kind: int, target: int, a: int, t1: int, t2: bool, st
   if kind in (0, 2, 9) and a > 1:
     return True
   return _run(sql, kind, target, a, t1, 1 if t2 else 0, study_state, (sql, kind, target, a, t1, t2, study_state))
+
+
+# ---- custom policy factory, failing policies, and endpoint switching -------------------------------------------
+from vizier import pythia as _pythia  # noqa: E402
+
+
+class _FixedPolicy(_pythia.Policy):
+  """Suggests x = 0.75 always; optionally fails."""
+
+  def __init__(self, fail=None):
+    self._fail = fail
+
+  def suggest(self, request):
+    if self._fail is not None:
+      raise self._fail
+    return _pythia.SuggestDecision([vz.TrialSuggestion({'x': 0.75}) for _ in range(request.count)])
+
+  def early_stop(self, request):
+    return _pythia.EarlyStopDecisions()
+
+
+_FAIL = [None]
+
+
+def _custom_factory(problem_statement, algorithm, policy_supporter, study_name):
+  return _FixedPolicy(_FAIL[0])
+
+
+def _custom_deployments():
+  if 'custom' not in _DEPLOY:
+    from vizier._src.service import pythia_service
+    local = vizier_service.VizierServicer(database_url=None)
+    local.default_pythia_service = pythia_service.PythiaServicer(local, policy_factory=_custom_factory)
+    grpc1 = vizier_server.DefaultVizierServer(database_url=None, policy_factory=_custom_factory)
+    grpc2 = vizier_server.DistributedPythiaVizierServer(database_url=None, policy_factory=_custom_factory)
+    _DEPLOY['custom'] = [('local', local, local.datastore), ('grpc', grpc1.stub, grpc1.datastore),
+                         ('grpc+pythia', grpc2.stub, grpc2.datastore)]
+    _DEPLOY['custom_keep'] = (grpc1, grpc2)
+  return _DEPLOY['custom']
+
+
+class _Boom(Exception):
+  pass
+
+
+def custom_policy(fail: int, count: int, t1: int) -> bool:
+  """
+  pre: 0 <= fail <= 3 and 1 <= count <= 2 and 0 <= t1 <= 2
+  post: _
+  """
+  fail, count, t1 = conc(fail, 0, 3), conc(count, 1, 2), conc(t1, 0, 2)
+  with NoTracing():
+    import grpc
+    _FAIL[0] = [None, ValueError('bad'), ZeroDivisionError('div'), _Boom('boom')][fail]
+    owner = 'c%d_%d' % (os.getpid(), next(_COUNTER))
+    outs = []
+    for name, service, ds in _custom_deployments():
+      study = _study(service, ds, owner, [0, ACTIVE, REQUESTED][t1], 0, 1)
+      try:
+        got = sorted(_trial_obs(t.materialize()) for t in study.suggest(count=count, client_id='w'))
+        first = ('ok', got)
+      except RuntimeError:
+        first = ('exc', 'RuntimeError')                 # the documented client-level error for a failed operation
+      except grpc.RpcError as e:  # noqa
+        first = ('exc', 'RpcError:' + e.code().name)
+      except Exception as e:  # noqa
+        first = ('exc', type(e).__name__)
+      # never wedged: every stored operation of the worker is finished; the next request terminates as well
+      ops = ds.list_suggestion_operations(study.resource_name, 'w') if first is not None else []
+      all_done = all(o.done for o in ops)
+      _FAIL[0], saved = None, _FAIL[0]
+      try:
+        again = len(study.suggest(count=count, client_id='w'))
+      except Exception as e:  # noqa
+        again = type(e).__name__
+      _FAIL[0] = saved
+      outs.append((first, all_done, again))
+    _FAIL[0] = None
+    ok = outs[0] == outs[1] == outs[2] and all(o[1] for o in outs)
+    if fail == 0:
+      ok = ok and outs[0][0][0] == 'ok' and all(dict(t[3]).get('x') == 0.75 or t[2] is False for t in outs[0][0][1])
+      ok = ok and len(outs[0][0][1]) == count
+    else:
+      need = count - (1 if t1 else 0)
+      if need > 0:
+        ok = ok and outs[0][0] == ('exc', 'RuntimeError')      # the failure is reported in every deployment
+    ok = ok and outs[0][2] == count
+  reach('custom_policy_fail%d' % fail)
+  return finish(ok, (fail, count, t1), obs=None if ok else outs)
+
+
+def endpoint_switch(first: int, second: int) -> bool:
+  """
+  pre: 0 <= first <= 2 and 0 <= second <= 2 and first != second
+  post: _
+  """
+  first, second = conc(first, 0, 2), conc(second, 0, 2)
+  with NoTracing():
+    _deployments(False)
+    grpc1, grpc2 = _DEPLOY['ram_keep']
+    endpoints = [constants.NO_ENDPOINT, grpc1.endpoint, grpc2.endpoint]
+    env = clients.environment_variables
+    saved = env.server_endpoint
+    sid = 'sw%d_%d' % (os.getpid(), next(_COUNTER))
+    try:
+      env.server_endpoint = endpoints[first]
+      a = clients.Study.from_study_config(_config(), owner=sid, study_id='s')
+      a.suggest(count=1, client_id='w')
+      name = a.resource_name
+      n_first = len(list(a.trials().get()))
+      # the same program, now pointed at ANOTHER deployment: that service has never heard of the study
+      env.server_endpoint = endpoints[second]
+      try:
+        clients.Study.from_resource_name(name)
+        found = True
+      except clients.ResourceNotFoundError:
+        found = False
+      b = clients.Study.from_study_config(_config(), owner=sid, study_id='s')
+      n_second = len(list(b.trials().get()))
+      ok = n_first == 1 and not found and n_second == 0
+    finally:
+      env.server_endpoint = saved
+  reach('endpoint_switch')
+  return finish(ok, (first, second))
